@@ -20,6 +20,7 @@ import (
 	"sort"
 	"strings"
 	"sync"
+	"sync/atomic"
 	"time"
 )
 
@@ -167,6 +168,12 @@ func violClass(s string) string {
 	return b.String()
 }
 
+// timeouts counts watchdog expiries of this process. A hung call cannot be killed (its goroutine keeps spinning), so
+// after maxTimeouts of them the remaining cases are skipped: the run ends quickly and reports the hanging inputs.
+var timeouts int32
+
+const maxTimeouts = 3
+
 // safeExec runs Exec with recover and a watchdog.
 func safeExec(p *Prop, line string) (out Out) {
 	to := p.Timeout
@@ -190,6 +197,7 @@ func safeExec(p *Prop, line string) (out Out) {
 	case o := <-done:
 		return o
 	case <-time.After(to):
+		atomic.AddInt32(&timeouts, 1)
 		return Out{Go: "timeout", Viol: "timeout: call did not return within " + to.String(), Tags: []string{"TIMEOUT"}}
 	}
 }
@@ -239,6 +247,10 @@ func execAndWrite(p *Prop, tier string, seed uint64, dir string, lines []string,
 		go func() {
 			defer wg.Done()
 			for i := range idx {
+				if atomic.LoadInt32(&timeouts) >= maxTimeouts {
+					outs[i] = Out{Tags: []string{"SKIPPED-AFTER-TIMEOUTS"}, Trivial: true}
+					continue
+				}
 				outs[i] = safeExec(p, lines[i])
 			}
 		}()
